@@ -1077,3 +1077,14 @@ PROPS["C04"]["does_not_cover"] = [x.replace("leaf-level insert (Node::insert: cr
 # ---------------------------------------------------------------- C20 side condition: unselected columns are copied only after the source was opened (its logs replayed)
 PROPS["C20"]["syntactic"] = list(PROPS["C20"].get("syntactic", [])) + ["migrate_copies_after_source_open"]
 PROPS["C20"]["claim"] = PROPS["C20"]["claim"] + " Side condition (text dominance on migration::migrate, an assumption that is checked, not a proof): the source database is opened -- its pending write-ahead logs replayed into its files -- unconditionally and before any column is copied file by file."
+
+# ---------------------------------------------------------------- U73 (Verus: ValueTable::claim_entries, unbounded)
+UNIT_META["claim_entries"] = {"functions": ["table::ValueTable::claim_entries"],
+                              "assumes": ["the atomics `filled`, `last_removed`, `dirty_header` and the RwLock around the free-entry stack are plain cells in the template and the function takes `&mut self` (two listed rewrites; the body is the text of /repo): the table lock the callers hold (HashColumn::tables upgradable read) is what makes that single-threaded view right",
+                                          "precondition: the free-entry stack mirrors the on-disk free list (top = list head, slot 0 never free) -- established by init_table_data and kept by next_free / clear_slot (Kani, U14); distinctness of the slots handed out additionally assumes the free slots are distinct and below the fill mark"]}
+for _p in ("C14", "C10", "C08"):
+    PROPS[_p]["verus_units"] = list(PROPS[_p].get("verus_units", [])) + ["claim_entries"]
+_U73 = " Claiming node slots (Verus, any number of slots, any free list): ValueTable::claim_entries hands out exactly the number asked for -- free slots first, in the order of the on-disk free list, then fresh slots from the fill mark upwards --, takes the claimed slots off the free stack, advances the fill mark by the fresh ones, keeps the list head mirroring the stack top and marks the header dirty; no slot is handed out twice, none that stays on the free list, none beyond the new fill mark."
+PROPS["C14"]["claim"] = PROPS["C14"]["claim"] + _U73
+PROPS["C10"]["claim"] = PROPS["C10"]["claim"] + " The slots new nodes are packed into (U60's `budget`) come from ValueTable::claim_entries, proved (Verus, unbounded) to hand out distinct slots, none of them still free."
+PROPS["C10"]["does_not_cover"] = [x.replace("the loop of claim_tree_values that claims the counted slots per tier (HashMap iteration by value, ValueTable::claim_entries)", "the loop of claim_tree_values that hands each tier's count to claim_entries (HashMap iteration by value)") for x in PROPS["C10"]["does_not_cover"]]
